@@ -10,6 +10,8 @@
   or difference of two top limbs does not overflow a signed limb.
 -/
 import MpirProofs.Lemmas.FftRingBfly
+import MpirProofs.Lemmas.FftRingCombine
+import MpirProofs.Lemmas.FftRingMulmod
 namespace Mpir.Fft
 open Mpir
 
@@ -136,5 +138,84 @@ theorem ifft_butterfly_val (a b : List Nat) (n i w : Nat) (ha : Limbs a) (hb : L
 
 example : (rval (ifft_butterfly [5, 7, 1] [9, 2, B - 1] 10 7).1 * 2 ^ 70 - (rval [5, 7, 1] * 2 ^ 70 + rval [9, 2, B - 1])) % pmod 2 = 0 := by
   decide
+
+/-! ### splitting into coefficients and recombination
+
+`polyEval bits cs = Σ_j val(c_j)·2^(j·bits)`.  Coefficient buffers have `ol + 1` limbs (`ol` = output_limbs). -/
+
+/-- mpir_fft_split_bits (total_limbs ≥ 1, bits ≥ 1, a coefficient's ⌈bits/64⌉ limbs fit the buffer): the
+    ⌈64·total/bits⌉ coefficients are the base-2^bits digits of the operand — they evaluate back to it and each is
+    below 2^bits — in zero-padded buffers of ol+1 proper limbs. -/
+theorem split_bits_val (x : List Nat) (bits ol : Nat) (hx : Limbs x) (hn : 1 ≤ x.length) (hb : 1 ≤ bits)
+    (hol : (bits + 63) / 64 ≤ ol + 1) :
+    polyEval bits (split_bits x bits ol) = val x ∧
+    (∀ c ∈ split_bits x bits ol, c.length = ol + 1 ∧ Limbs c ∧ val c < 2 ^ bits) ∧
+    (split_bits x bits ol).length = (64 * x.length - 1) / bits + 1 :=
+  split_bits_spec x bits ol hx hn hb hol
+
+-- non-vacuity: 28-bit coefficients of a one-limb operand (the first FFT size: depth 6, w 1), and a limb-aligned split
+example : split_bits [0xfedcba9876543210] 28 1 = [[0x6543210, 0], [0xdcba987, 0], [0xfe, 0]] := by decide
+example : split_bits [1, 2, 3] 128 2 = [[1, 2, 0], [3, 0, 0]] := by decide
+
+/-- mpir_fft_combine_bits into a zeroed destination (as every caller prepares it), for coefficients whose value
+    fits `ol` limbs (top limb zero — what mpn_normmod_2expp1 leaves for every coefficient of a product):
+    the result is Σ c_j·2^(j·bits) truncated to the destination's length.  With top limb zero
+    `rval c = val c`, so this is the sum of the residue values. -/
+theorem combine_bits_eval (res : List Nat) (cs : List (List Nat)) (bits ol : Nat) (hr : Limbs res)
+    (hz : val res = 0) (hb : 1 ≤ bits)
+    (hcs : ∀ c ∈ cs, c.length = ol + 1 ∧ Limbs c ∧ val c < B ^ ol) :
+    (combine_bits res cs bits ol).length = res.length ∧ Limbs (combine_bits res cs bits ol) ∧
+    val (combine_bits res cs bits ol) = polyEval bits cs % B ^ res.length :=
+  combine_bits_spec res cs bits ol hr hz hb hcs
+
+/-- for such coefficients the signed residue value is the plain value -/
+theorem rval_of_small (c : List Nat) (ol : Nat) (hl : c.length = ol + 1) (hc : Limbs c) (hv : val c < B ^ ol) :
+    rval c = val c := by
+  obtain ⟨cs, t, rfl, hcs⟩ := as_snoc c ol hl
+  have ⟨hL, ht⟩ := Limbs_snoc.mp hc
+  rw [rval_snoc, val_snoc, hcs] at *
+  have : t = 0 := by
+    by_contra hne
+    have : B ^ ol * 1 ≤ B ^ ol * t := Nat.mul_le_mul_left _ (Nat.one_le_iff_ne_zero.mpr hne)
+    omega
+  subst this; simp
+
+-- non-vacuity: three 28-bit coefficients, overlapping sums with carries across the limb boundary
+example : combine_bits [0, 0] [[0xfffffff, 0], [0xfffffff, 0], [0xfffffff, 0]] 28 1 = [0xffffffffffffffff, 0xfffff] := by
+  decide
+example : combine_bits [0, 0, 0] [[B - 1, 0], [B - 1, 0], [5, 0]] 64 1 = [B - 1, B - 1, 5] := by decide
+
+/-- split followed by combine into a zeroed destination of the operand's length is the identity
+    (coefficients of at most 64·ol bits). -/
+theorem split_combine_id (x : List Nat) (bits ol : Nat) (hx : Limbs x) (hn : 1 ≤ x.length) (hb : 1 ≤ bits)
+    (hol : bits ≤ 64 * ol) :
+    combine_bits (List.replicate x.length 0) (split_bits x bits ol) bits ol = x :=
+  split_combine x bits ol hx hn hb hol
+
+example : combine_bits [0, 0] (split_bits [0xfedcba9876543210, 0x123] 37 1) 37 1 = [0xfedcba9876543210, 0x123] := by
+  decide
+
+/-! ### the pointwise product -/
+
+/-- mpn_mulmod_2expp1_basecase for b = 64·n on the path that does not enter mpir_fft_mulmod_2expp1, with
+    mpn_mul_n taken as the exact product: `ret·2^b + x ≡ y·z (mod 2^b + 1)` where an operand whose flag bit in
+    `c` is set stands for 2^b; the result is fully reduced (`x + 2^b·ret ≤ 2^b`, ret ∈ {0, 1}).
+    PARTIAL: b a multiple of 64 only (what every FFT caller passes: b = n·w = 64·limbs).  Not closed here:
+    b mod 64 ≠ 0 (the masked/shifted path of mpn_mulmod_2expp1_internal, :108-123) and the FFT branch for
+    n > FFT_MULMOD_2EXPP1_CUTOFF; the model of both is tied by the differential run (op fft_mulmod_2expp1). -/
+theorem mulmod_2expp1_basecase_val_partial (yp zp : List Nat) (c n : Nat) (hn : 1 ≤ n) (hy : Limbs yp)
+    (hz : Limbs zp) (hly : yp.length = n) (hlz : zp.length = n) :
+    (mulmod_2expp1_basecase yp zp c (64 * n)).1.length = n ∧ Limbs (mulmod_2expp1_basecase yp zp c (64 * n)).1 ∧
+    (mulmod_2expp1_basecase yp zp c (64 * n)).2 ≤ 1 ∧
+    val (mulmod_2expp1_basecase yp zp c (64 * n)).1 + B ^ n * (mulmod_2expp1_basecase yp zp c (64 * n)).2 ≤ B ^ n ∧
+    ((val (mulmod_2expp1_basecase yp zp c (64 * n)).1 : Int) +
+      (B : Int) ^ n * (mulmod_2expp1_basecase yp zp c (64 * n)).2 ≡
+        flagged (c / 2 % 2) n yp * flagged (c % 2) n zp [ZMOD pmod n]) :=
+  basecase_spec yp zp c n hn hy hz hly hlz
+
+-- non-vacuity modulo B+1: (B−1)² ≡ (−2)² = 4; 2^64·2^64 ≡ 1; 1·2^64 = 2^64 (returned as limb 0 with ret 1)
+example : mulmod_2expp1_basecase [B - 1] [B - 1] 0 64 = ([4], 0) := by decide
+example : mulmod_2expp1_basecase [0] [0] 3 64 = ([1], 0) := by decide
+example : mulmod_2expp1_basecase [1] [0] 1 64 = ([0], 1) := by decide
 
 end Mpir.Fft
